@@ -36,10 +36,14 @@ def suite_hist(ctx):
     s = Suite('hist')
     rng = ctx.rng
     lines, impl = [], []
+    _corpus, _hi = hist.corpus_histories(), 0
     for _ in range(ctx.n(500, 10000)):
         hcfg = hist.HCfg(rt=rng.choice([None, 5120, 300]), sw=tuple(rng.random() < 0.7 for _ in range(3)), std=rng.choice([2006, 2013, 2020]),
                          cb=rng.random() < 0.3)
         ops, meta = hist.gen_history(rng, rng.choice(['residue', 'residue', 'spr']), rng.randrange(3, ctx.n(9, 40)), hcfg)
+        if _hi < len(_corpus):
+            ops, meta = _corpus[_hi]            # fixed histories first (hist.corpus_histories)
+        _hi += 1
         out, tr, client, conn = hist.run_history(hcfg, ops)
         line = hcfg.line(ops)
         lines.append(line)
